@@ -218,6 +218,7 @@ class Interp:
         self.mono = mono
         self.h = harness
         self.steps = 0
+        self.max_steps = None
         self.unmodelled = []
         if harness is not None:
             harness.interp = self
@@ -289,7 +290,11 @@ class Interp:
                         cell, path, off = r.cell, r.path, r.off
                         continue
                 if not isinstance(iv, Int) or not iv.is_conc():
-                    raise Undecided("symbolic index %r in %s" % (iv, fr.body["path"]))
+                    lk = self.table_lookup(cont, iv, off) if isinstance(iv, Int) else None
+                    if lk is None:
+                        raise Undecided("symbolic index %r in %s" % (iv, fr.body["path"]))
+                    cell, path, off = Cell(lk, "table-lookup (read-only)"), (), 0
+                    continue
                 path = path + (("e", iv.val + off),)
                 off = 0
             elif isinstance(pe, dict) and "cidx" in pe:
@@ -302,6 +307,49 @@ class Interp:
             else:
                 raise Unsupported("projection %r" % (pe,))
         return cell, path, off
+
+    def table_lookup(self, cont, iv, off=0):
+        """TABLE[i] for a constant table of integers and an index with at most 8 symbolic bits (all other bits constant), provably in
+        range: every result bit as the algebraic normal form of the index bits (Moebius transform of its truth table)"""
+        if not isinstance(cont, (Arr, VecV)) or not cont.elems:
+            return None
+        el = cont.elems[off:]
+        if not all(isinstance(e, Int) and e.is_conc() for e in el):
+            return None
+        bits = list(iv.getbits())
+        sym = [i for i, b in enumerate(bits) if bv.t_is_const(b) is None]
+        if any(bits[i] is bv.TOP for i in sym) or len(sym) > 8 or not sym:
+            return None
+        base = sum((bv.t_is_const(b) or 0) << i for i, b in enumerate(bits) if i not in sym)
+        k = len(sym)
+        idxs = []
+        for m in range(1 << k):
+            x = base
+            for j, i in enumerate(sym):
+                if (m >> j) & 1:
+                    x |= 1 << i
+            if x >= len(el):
+                return None      # the index can be out of range
+            idxs.append(x)
+        w, signed, kind = el[0].w, el[0].signed, el[0].kind
+        out = []
+        for bit in range(w):
+            a = [(el[x].val >> bit) & 1 for x in idxs]
+            for i in range(k):
+                step = 1 << i
+                for j in range(len(a)):
+                    if j & step:
+                        a[j] ^= a[j ^ step]
+            acc = bv.ZERO
+            for m in range(1 << k):
+                if a[m]:
+                    term = bv.ONE
+                    for j in range(k):
+                        if (m >> j) & 1:
+                            term = bv.t_and(term, bits[sym[j]])
+                    acc = bv.t_xor(acc, term)
+            out.append(acc)
+        return Int(w, signed, bits=out, kind=kind)
 
     def read(self, cell, path):
         v = cell.v
@@ -364,6 +412,8 @@ class Interp:
         return Opaque(tystr, tags, info)
 
     def write(self, cell, path, newv, tyhint=None):
+        if cell.name == "table-lookup (read-only)":
+            raise Undecided("write through a symbolic index")
         cell.v = self._set(cell.v, path, newv, tyhint)
 
     def _set(self, v, path, newv, tyhint):
@@ -695,7 +745,7 @@ class Interp:
                         self.write(cell, path, Adt(v.name, st["variant"], v.fields, v.tags))
                     else:
                         raise Unsupported("setdiscr on %r" % (v,))
-            if self.steps > MAX_STEPS:
+            if self.steps > (self.max_steps or MAX_STEPS):
                 raise Unsupported("step bound exceeded in %s" % body["path"])
             t = bb["t"]
             k = t["k"]
